@@ -120,63 +120,70 @@ def coverage(c, gen, model):
         seen.setdefault(key, set()).add(d)
         c.count(("node", a["proc"], a["pc"], d, s[0], 1 if s[1] > 0 else 0))
     relevant = set(model["go_callbacks"]) | set(model["c_api"]) | {"executor.call", "lj_view_wrapper"}
-    missing = []
-    guards = muts = 0
+    # per source position (a guard inlined into several processes is one guard)
+    gsrc, msrc = {}, {}
     for p in model["procs"]:
         if p["name"] not in relevant:
             continue
         for i, nd in enumerate(p["nodes"], 1):
+            outs = seen.get((p["name"], i), set())
             if nd["k"] == "test" and nd["a"] in ("isQuery", "nestedView"):
-                guards += 1
-                outs = seen.get((p["name"], i), set())
-                if not ({nd["t"], nd["f"]} <= outs):
-                    missing.append("guard %s:%d (%s) taken only towards %s" % (p["name"], i, nd["src"], sorted(outs)))
+                g = gsrc.setdefault(nd["src"] + " " + nd["a"], set())
+                if nd["t"] in outs:
+                    g.add(True)
+                if nd["f"] in outs:
+                    g.add(False)
             if nd["k"] in ("mut", "sqlstep"):
-                muts += 1
-                if (p["name"], i) not in seen:
-                    missing.append("mutating primitive %s:%d (%s) never executed" % (p["name"], i, nd["src"]))
+                msrc[nd["src"]] = msrc.get(nd["src"], False) or (p["name"], i) in seen
+    missing = ["guard %s evaluated only to %s" % (k, sorted(v)) for k, v in sorted(gsrc.items()) if v != {True, False}]
+    missing += ["mutating primitive at %s never executed" % k for k, v in sorted(msrc.items()) if not v]
+    guards, muts = len(gsrc), len(msrc)
     c.extra["guards_covered_both_ways"] = guards - len([m for m in missing if m.startswith("guard")])
     c.extra["mutating_primitives_executed"] = muts - len([m for m in missing if m.startswith("mut")])
     return n, missing
 
 
-def self_test(c, exe, rng, k):
-    """Binding self-test: built-in mutations of a scratch copy of contract/ must be rejected by the same pipeline."""
+def self_test_plan(c, rng, k):
+    """Binding self-test: k built-in mutations (chosen by the seed) that apply to this tree."""
     src = os.path.join(vlib.REPO, "contract")
     order = list(SELF_MUTATIONS)
     rng.shuffle(order)
-    done = 0
+    plan = []
     for name, fn, pat, rep in order:
-        if done >= k:
+        if len(plan) >= k:
             break
         p = os.path.join(src, fn)
         if not os.path.exists(p):
             continue
-        txt = open(p, encoding="utf-8", errors="replace").read()
-        new, cnt = re.subn(pat, rep, txt, count=1)
+        new, cnt = re.subn(pat, rep, open(p, encoding="utf-8", errors="replace").read(), count=1)
         if cnt != 1:
             c.notes.append("self-test mutation %s does not apply to this tree (skipped)" % name)
             continue
-        root = os.path.join(c.work, "st-" + name)
-        cdir = os.path.join(root, "contract")
-        os.makedirs(cdir)
-        for f in os.listdir(src):
-            if f.endswith((".go", ".c")) and not f.endswith("_test.go") and os.path.isfile(os.path.join(src, f)):
-                shutil.copy(os.path.join(src, f), os.path.join(cdir, f))
-        open(os.path.join(cdir, fn), "w").write(new)
-        rc, out, model = extract(exe, root, os.path.join(root, "gen"))
-        if rc not in (0, 3) or model is None:
-            raise vlib.Infra("self-test %s: extractor failed:\n%s" % (name, out[-2000:]))
-        res = vlib.tlc(SPEC_DIR, "MC_ViewNesting", "ST_ViewNesting.cfg", os.path.join(root, "tlc"), timeout=900,
-                       files={"VmGuards.tla": os.path.join(root, "gen", "VmGuards.tla")})
-        if res.violation not in PROPS:
-            raise vlib.Infra("binding self-test failed: source mutation '%s' was not rejected (%s)\n%s" % (name, res.violation, res.out[-1500:]))
-        c.notes.append("self-test: source mutation '%s' rejected (%s)" % (name, res.violation))
-        shutil.rmtree(root, ignore_errors=True)
-        done += 1
-    if done == 0:
+        plan.append((name, fn, new))
+    if not plan:
         raise vlib.Infra("binding self-test: no built-in mutation applies to this tree")
-    return done
+    return plan
+
+
+def self_test_one(c, exe, name, fn, new):
+    """A mutated scratch copy of contract/ must be rejected by the same pipeline (extractor + TLC)."""
+    src = os.path.join(vlib.REPO, "contract")
+    root = os.path.join(c.work, "st-" + name)
+    cdir = os.path.join(root, "contract")
+    os.makedirs(cdir)
+    for f in os.listdir(src):
+        if f.endswith((".go", ".c")) and not f.endswith("_test.go") and os.path.isfile(os.path.join(src, f)):
+            shutil.copy(os.path.join(src, f), os.path.join(cdir, f))
+    open(os.path.join(cdir, fn), "w").write(new)
+    rc, out, model = extract(exe, root, os.path.join(root, "gen"))
+    if rc not in (0, 3) or model is None:
+        raise vlib.Infra("self-test %s: extractor failed:\n%s" % (name, out[-2000:]))
+    res = vlib.tlc(SPEC_DIR, "MC_ViewNesting", "ST_ViewNesting.cfg", os.path.join(root, "tlc"), workers=3, timeout=900,
+                   files={"VmGuards.tla": os.path.join(root, "gen", "VmGuards.tla")})
+    if res.violation not in PROPS:
+        raise vlib.Infra("binding self-test failed: source mutation '%s' was not rejected (%s)\n%s" % (name, res.violation, res.out[-1500:]))
+    shutil.rmtree(root, ignore_errors=True)
+    return "self-test: source mutation '%s' rejected (%s)" % (name, res.violation)
 
 
 def run(c):
@@ -201,36 +208,46 @@ def run(c):
     c.extra["extracted"] = dict(processes=len(model["procs"]), go_callbacks=len(model["go_callbacks"]), c_api=len(model["c_api"]),
                                 nodes=sum(len(p["nodes"]) for p in model["procs"]), flag_writes=model.get("flag_writes") or [], facts=model["facts"],
                                 unknown_after_mutation=[u for u in (model.get("unknowns") or []) if not u["before_mut"]])
-    # 1. exhaustive check of the extracted model
+    # all TLC runs are independent: start them together (few workers each, the machine is shared)
+    import concurrent.futures
     cfg = "MC_ViewNesting_big.cfg" if thorough else "MC_ViewNesting.cfg"
-    res = vlib.tlc(SPEC_DIR, "MC_ViewNesting", cfg, c.work, timeout=3000, files=files)
-    if not tlc_verdict(c, res, model, "read-only contexts never reach a mutating primitive; view nesting balanced (extracted model)"):
-        return
-    c.exhaustive = True
-    c.extra["exhaustive_note"] = ("exhaustive over the extracted control-flow graphs (every path of every exported callback / Lua-visible C function), all context "
-                                  "kinds, amount signs {-1,0,1}, call chains of <= %d Lua frames; contract code fully nondeterministic" % (4 if thorough else 2))
-    # 2. coverage / non-vacuity
-    gen = vlib.tlc(SPEC_DIR, "MC_ViewNesting", "Gen_ViewNesting.cfg", c.work, workers=1, timeout=1500, files=files)
-    c.require_ok(gen, "node coverage of the extracted graphs (call chains of 1 frame)")
-    n, missing = coverage(c, gen, model)
-    if n < 500:
-        raise vlib.Infra("coverage run printed too few transitions: %d" % n)
-    if missing:
-        raise vlib.Infra("the extracted model is (partly) vacuous:\n" + "\n".join(missing[:20]))
-    for p in model["procs"]:
-        if p["kind"] == "gocb" and len(p["nodes"]) > 1:
-            c.sample({"process": p["name"], "nodes": len(p["nodes"]),
-                      "guards": [n_["src"] for n_ in p["nodes"] if n_["k"] == "test" and n_["a"] in ("isQuery", "nestedView")][:4],
-                      "mutations": [n_["src"] + " " + n_["a"] for n_ in p["nodes"] if n_["k"] == "mut"][:4]})
-    # 3. binding self-test
-    self_test(c, exe, rng, 5 if thorough else 2)
-    # 4. observation (no verdict): the frozen hardfork-4 behaviour
-    if thorough:
-        obs = vlib.tlc(SPEC_DIR, "MC_ViewNesting", "Obs_ViewNesting.cfg", c.work, timeout=1500, files=files)
-        c.add_tlc(obs, "observation: hardfork 4 with negative amounts (no verdict)")
-        if obs.violation in PROPS:
-            steps, viol = replay_of(obs, model)
-            c.notes.append("observation (hardfork 4 only, not a verdict): %s in %s at %s -- a negative decimal amount passes transformAmount and "
-                           "sendBalance before hardfork 5" % ((viol or {}).get("kind"), (viol or {}).get("proc"), (viol or {}).get("src")))
-        elif obs.ok:
-            c.notes.append("observation: hardfork 4 with negative amounts is clean")
+    plan = self_test_plan(c, rng, 5 if thorough else 2)
+    with concurrent.futures.ThreadPoolExecutor(max_workers=4) as ex:
+        f_mc = ex.submit(vlib.tlc, SPEC_DIR, "MC_ViewNesting", cfg, os.path.join(c.work, "mc"), workers=6, timeout=3000, files=files)
+        f_gen = ex.submit(vlib.tlc, SPEC_DIR, "MC_ViewNesting", "Gen_ViewNesting.cfg", os.path.join(c.work, "cov"), workers=1, timeout=1500, files=files)
+        f_st = [ex.submit(self_test_one, c, exe, *pl) for pl in plan]
+        f_obs = ex.submit(vlib.tlc, SPEC_DIR, "MC_ViewNesting", "Obs_ViewNesting.cfg", os.path.join(c.work, "obs"), workers=3,
+                          timeout=1500, files=files) if thorough else None
+        # 1. exhaustive check of the extracted model
+        res = f_mc.result()
+        if not tlc_verdict(c, res, model, "read-only contexts never reach a mutating primitive; view nesting balanced (extracted model)"):
+            return
+        c.exhaustive = True
+        c.extra["exhaustive_note"] = ("exhaustive over the extracted control-flow graphs (every path of every exported callback / Lua-visible C function), all "
+                                      "context kinds, amount signs {-1,0,1}, call chains of <= %d Lua frames; contract code fully nondeterministic" % (4 if thorough else 2))
+        # 2. coverage / non-vacuity
+        gen = f_gen.result()
+        c.require_ok(gen, "node coverage of the extracted graphs (call chains of 1 frame)")
+        n, missing = coverage(c, gen, model)
+        if n < 500:
+            raise vlib.Infra("coverage run printed too few transitions: %d" % n)
+        if missing:
+            raise vlib.Infra("the extracted model is (partly) vacuous:\n" + "\n".join(missing[:20]))
+        for p in model["procs"]:
+            if p["kind"] == "gocb" and len(p["nodes"]) > 1:
+                c.sample({"process": p["name"], "nodes": len(p["nodes"]),
+                          "guards": [n_["src"] for n_ in p["nodes"] if n_["k"] == "test" and n_["a"] in ("isQuery", "nestedView")][:4],
+                          "mutations": [n_["src"] + " " + n_["a"] for n_ in p["nodes"] if n_["k"] == "mut"][:4]})
+        # 3. binding self-test
+        for f in f_st:
+            c.notes.append(f.result())
+        # 4. observation (no verdict): the frozen hardfork-4 behaviour
+        if f_obs is not None:
+            obs = f_obs.result()
+            c.add_tlc(obs, "observation: hardfork 4 with negative amounts (no verdict)")
+            if obs.violation in PROPS:
+                steps, viol = replay_of(obs, model)
+                c.notes.append("observation (hardfork 4 only, not a verdict): %s in %s at %s -- a negative decimal amount passes transformAmount and "
+                               "sendBalance before hardfork 5" % ((viol or {}).get("kind"), (viol or {}).get("proc"), (viol or {}).get("src")))
+            elif obs.ok:
+                c.notes.append("observation: hardfork 4 with negative amounts is clean")
